@@ -459,6 +459,45 @@ func c11W2(ctx *core.Ctx, out *core.Out) {
 		}
 	}
 	out.Count("writecontrol_lateness_us_sum_of_case_maxima", maxLate)
+	// While the writer is still stalled inside the transport: frames from the peer
+	// whose default handlers want to write (a ping, then a close) must not block the
+	// reader beyond the handlers' own one-second limit.
+	if ctx.Idx%60 == 3 {
+		peerMasked := cfg.Server
+		mk := func(op int, p []byte) []byte {
+			return wire.Append(nil, wire.Frame{Fin: true, Op: op, Masked: peerMasked, Key: [4]byte{4, 3, 2, 1}, Payload: p})
+		}
+		rdRes := make(chan error, 1)
+		go func() {
+			for {
+				if _, _, err := ep.c.ReadMessage(); err != nil {
+					rdRes <- err
+					return
+				}
+			}
+		}()
+		b.Write(mk(9, []byte("ping-while-writer-stalled")))
+		b.Write(mk(8, wire.MkClose(1000, "bye")))
+		t0 := time.Now()
+		select {
+		case err := <-rdRes:
+			out.Count("reads_completed_behind_stalled_writer", 1)
+			out.Count("stalled_writer_read_latency_ms_sum", int64(time.Since(t0)/time.Millisecond))
+			if !isCloseErr(err, 1000, "bye") {
+				fail("read-behind-stalled-writer", fmt.Sprintf("the peer's close arrived while the writer was stalled; the reader returned %v instead of the close error", err), nil)
+				release()
+				a.Close()
+				b.Close()
+				return
+			}
+		case <-time.After(30 * time.Second):
+			fail("reader-blocks-behind-stalled-writer", "a ping and a close arrived while a writer was stalled inside the transport; 30 s later the reader is still blocked (its handlers wait for the connection without a limit)", nil)
+			release()
+			a.Close()
+			b.Close()
+			return
+		}
+	}
 	release()
 	wgW.Wait()
 	// the timeouts must not have poisoned anything
